@@ -55,6 +55,10 @@ CLAIMED = {
         technique="runtime monitoring: exhaustive endpoint x status x shape table over both real front ends on a scripted stub kernel, judged by table lookup and structural comparison; request-translation equality",
         text="http.New and grpc.New run over a stub kernel that records the t_api.Request and answers with a scripted outcome. The status list is parsed from internal/kernel/t_api/status.go at run time. Every one of the 20 HTTP routes and 19 gRPC methods is crossed with every status constant, both delivery forms (status inside a response, t_api.Error) and response shapes (all optional fields set, optional fields nil, every promise state): HTTP status must be status/100 with a JSON resource or an error body carrying the code, gRPC must be OK or the mapped code (the check's own table), flags must agree with the status, rendered promises/schedules/locks/claim messages must equal what the kernel returned, no reply may be dropped and the process must survive (cases run in child processes; a death is attributed to the logged case). The same generated request content is sent through every route of both protocols and the captured kernel requests must be equal. Pairs the kernel cannot produce today are run but only reported. The space is finite and enumerated completely in both tiers.",
         note="Trusted: the stub kernel (harness/vfront/child.go), the table of statuses each request kind can answer (from the sequential specification), the check's own gRPC code table. Only front-end rendering is judged, not the kernel."),
+    "C19": dict(engine="route", category="exploration", design="DESIGN.md §4 C19",
+        technique="runtime monitoring: differential oracle - the real router worker and the real sender worker (capture plugins) against the check's own implementation of the resolution rules",
+        text="For generated routing tag values (identifiers, URLs of many schemes and shapes, JSON of every shape including unknown fields, numbers, arrays, null, nested and huge values), source tables (default / custom / several tag keys, first match wins) and target tables (names shadowing URLs, missing default, unknown transports), the real router worker's decision and recv bytes are compared with the stated rule (plain string = logical, JSON object with non-empty type = physical, anything else does not route); the task then carries exactly those bytes through the real sender worker, whose chosen transport, receiver data, message body (type, task id/counter/hrefs or promise for notifications) and completion (success / failure / error / queue full, unknown or undeliverable address = failed hand-off with nothing sent) are compared with the check's own resolution. A panic of either worker is a violation.",
+        note="Trusted: the check's reading of the rules (harness/vroute/main.go resolve, harness/vh/oracles.go), net/url for URL parsing. Keys differing only in case and duplicate JSON keys are classified under-specified and skipped. Retrying of failed hand-offs by the dispatch cycle is observed by C08."),
 }
 
 PENDING_REASON = "check for this property is not built yet in this round (machinery under construction; see DESIGN.md §9 build order)"
